@@ -388,7 +388,7 @@ impl SharedRateLimiter {
                 // No permit was consumed: wait for the next opportunity, but never
                 // beyond the caller's timeout, then compete for a permit again
                 Ok(wait_duration) => {
-                    if start.elapsed() + wait_duration > timeout {
+                    if start.elapsed().saturating_add(wait_duration) > timeout {
                         return Err(());
                     }
                     sleep(wait_duration).await;
